@@ -42,6 +42,7 @@ func (r *router) initUpstream(cfg *UpstreamConfig) error {
 
 	w := wrapUpstream(cfg.Tag, u)
 	if err := w.RegisterMetricsTo(r.metricsReg); err != nil {
+		u.Close() // It is not in r.upstreams. Nobody else will close it.
 		return fmt.Errorf("failed to register metrics, %w", err)
 	}
 	r.upstreams[cfg.Tag] = w
